@@ -13,6 +13,11 @@ def jobs(tier, ws, prop='C06'):
                       replace=['ncmpio_enddef.c:move_file_block'], defines=['-DH_rec', '-DNRECS=%d' % nr],
                       canaries=(['record_by_record'] if nr > 1 else []) + (['whole_section', 'failed'] if nr > 0 else []), unwind=10, kind='bounded',
                       bound='%d records; record sizes and section offsets symbolic (< 2^40)' % nr))
+    for nv, no, ha, ra in ([(3, 2, 512, 4), (3, 1, 4, 512)] if tier == 'quick' else [(3, 2, 512, 4), (3, 1, 4, 512), (4, 2, 512, 512), (4, 3, 4, 4), (2, 2, 4096, 4), (3, 3, 512, 1024)]):
+        js.append(Job('%s/NC_begins_redef/nvars%d_existing%d_halign%d_ralign%d' % (prop, nv, no, ha, ra), prop, ED, 'C06_begins.c', enforce='ncmpio_enddef.c:NC_begins',
+                      replace=['ncmpio_hdr_len_NC'], defines=['-DNVARS=%d' % nv, '-DNOLD=%d' % no, '-DH_ALIGN=%d' % ha, '-DR_ALIGN=%d' % ra], extra_src=['stubs/mpi_model.c'],
+                      canaries=['only_record_section_moves', 'header_extent_grows', 'nothing_moves', 'evarsize'], unwind=26, kind='bounded', timeout=600,
+                      bound='redefinition: %d existing + %d added variables of symbolic kind and length (< 2^32), well-formed old layout with symbolic offsets (< 2^40), alignments %d/%d' % (no, nv - no, ha, ra)))
     for nv in ([3] if tier == 'quick' else [1, 2, 3, 4]):
         js.append(Job('%s/move_fixed_vars/nvars%d' % (prop, nv), prop, ED, 'C06_moves.c', enforce='ncmpio_enddef.c:move_fixed_vars',
                       replace=['ncmpio_enddef.c:move_file_block'], defines=['-DH_fix', '-DNVARS=%d' % nv],
